@@ -13,7 +13,11 @@
    words where a name is required, assignment to something that is not a variable or an index
    expression, an expression statement that is not a call, a lone `;`.
 
-   Not supported (reported as load errors starting with "unsupported:"): `...`, method syntax. *)
+   Method calls `e:m(args)` are desugared (see parse_suffix); LuaWf then counts the local variables
+   mentioned in `args` as upvalues of the synthetic function (an over-approximation that matters only
+   for a call mentioning more than 60/255 distinct locals).
+   Not supported (reported as load errors starting with "unsupported:"): `...`, method DEFINITIONS
+   `function a:b() end`. *)
 From Coq Require Import String Ascii List NArith ZArith QArith Bool.
 From Sylt Require Import Lua.LuaAst Lua.LuaLex.
 Import ListNotations.
@@ -102,6 +106,9 @@ Definition unop_of (t : token) : option unop :=
   end.
 
 Definition unary_priority : N := 8%N.
+
+(* the parameter of the function a method call desugars to; no program can write this name *)
+Definition method_self : string := "(self)".
 
 (* tokens that end a block *)
 Definition block_end (t : token) : bool :=
@@ -195,7 +202,18 @@ with parse_suffix (d : dialect) (n : nat) (e : expr) (ts : toks) {struct n} : pr
         do* k, ts1 <- parse_subexpr d n 0%N (advance ts);
         do* _u, ts2 <- expect_op "]" ts1;
         parse_suffix d n (EIndex e k) ts2
-      else if is_op ":" ts then PErr (line_of ts) "unsupported: method call syntax"
+      else if is_op ":" ts then
+        (* method call  e:m(args)  ==>  (function(self) return self.m(self, args) end)(e)
+           with an unnameable parameter: e is evaluated once, then the method is looked up, then the
+           arguments are evaluated (in the current scope extended by that one variable), and all
+           results are returned -- the order and the values of OP_SELF + OP_CALL *)
+        do* m, ts1 <- expect_name (advance ts);
+        if negb (is_op "(" ts1 || is_op "{" ts1 || match peek ts1 with TStr _ => true | _ => false end)
+        then err_near "function arguments expected" ts1 else
+        do* args, ts2 <- parse_args d n ts1;
+        let self := EVar method_self in
+        parse_suffix d n
+          (ECall (EFunc [method_self] [SReturn [ECall (EIndex self (EStr m)) (self :: args)]]) [e]) ts2
       else if is_op "(" ts || is_op "{" ts || match peek ts with TStr _ => true | _ => false end then
         do* args, ts1 <- parse_args d n ts;
         parse_suffix d n (ECall e args) ts1
